@@ -8,7 +8,7 @@
                                           stable sort (what sort.Stable computes)
      S1 srt      "returns a sorted permutation and leaves a sorted input unchanged" (FmtSort.S1)
      wf_keys     every mapping has pairwise distinct keys *)
-From KV Require Import Yaml.Fmt Yaml.FmtSort Yaml.FmtTablesRef Yaml.FmtProofs.
+From KV Require Import Yaml.Fmt Yaml.FmtSort Yaml.FmtTablesRef Yaml.Resolve11 Yaml.FmtProofs.
 From Coq Require Import Permutation.
 
 (* ---- generated tables ---- *)
@@ -236,6 +236,33 @@ Theorem C20_schema_tag_sound : forall nonstr hastype (h : hdr) (v : string) type
      (t = "string" \/ hastype v t = true)).
 Proof. exact sq_tag_sound. Qed.
 Print Assumptions C20_schema_tag_sound.
+
+(* the same rules with the YAML 1.1 resolution INSIDE the model: on the fragment of texts that are
+   certainly one plain scalar (Yaml/Resolve11.v: word table, ParseInt / ParseFloat syntax, tied to
+   go-yaml v2 by the correspondence) the answers of IsValueNonString / valueHasType are computed, the
+   oracles o1 / o2 only serve texts outside the fragment *)
+Theorem C20_schema_quote_resolved : forall o1 o2 (h : hdr) (v : string) (r : rtag),
+  resolve11 v = Some r ->
+  let fns := fmt_nonstring (nonstr_m o1) (hastype_m o2) in
+  (* a text YAML 1.1 resolves to a string is never touched, whatever the schema says *)
+  (forall types format, r = RStr -> fns types format h v = h) /\
+  (* a boolean / number / null text at a string-typed position: quoted, !!str *)
+  (forall format, r <> RStr -> String.eqb format "int-or-string" = false ->
+     String.eqb (h_tag h) node_tag_null = false ->
+     style_quoted (h_style (fns ["string"] format h v)) = true /\ h_tag (fns ["string"] format h v) = "!!str") /\
+  (* at a boolean / integer / number position: unquoted + tagged when the text has that type ... *)
+  (forall t format tg, is_num_type t -> rtag_has_type r t = true -> assoc_str t type_to_tag = Some tg ->
+     String.eqb (h_tag h) node_tag_null = false ->
+     style_quoted (h_style (fns [t] format h v)) = false /\ h_tag (fns [t] format h v) = tg) /\
+  (* ... and left exactly as written otherwise *)
+  (forall t format, is_num_type t -> rtag_has_type r t = false -> fns [t] format h v = h).
+Proof.
+  exact (fun o1 o2 h v r HR =>
+    conj (sqr_string_untouched o1 o2 h v r HR)
+   (conj (sqr_quoted o1 o2 h v r HR)
+   (conj (sqr_typed o1 o2 h v r HR) (sqr_mistyped o1 o2 h v r HR)))).
+Qed.
+Print Assumptions C20_schema_quote_resolved.
 
 (* ---- documents the filter leaves alone ---- *)
 Theorem C20_optout : forall nonstr hastype srt s n v,
